@@ -838,7 +838,7 @@ def run_texts(ctx, items, fresh_each=False, tag="t", engine_every=40, phases=Tru
     if phases:
         # which phase overflows the native stack / does not finish (parser / expander / compiler / run)
         over = [(k, b) for (k, b) in items if results.get(k, {}).get("death") == "stack-overflow" or results.get(k, {}).get("hang")]
-        over = over[:64]
+        over = over[:(20 if ctx.quick() else 64)]
         for (k, b), ph in zip(over, C.pool_map(lambda a: overflow_phase(ctx, a[1][1], a[0]), list(enumerate(over)))):
             results[k]["phase"] = ph
     ctx.log("run_texts[%s]: %d texts, evaluation %.1fs, phases %.1fs" % (tag, n, t_b - t_a, time.time() - t_b))
@@ -1330,7 +1330,7 @@ def gen_texts(ctx, stats):
         add("corpus", k, b)
     for k, b in deep_texts(r, quick):
         add("deep", k, b)
-    n_rand = 400 if quick else 10000
+    n_rand = 300 if quick else 10000
     for _ in range(n_rand):
         add("unicode", "unicode", rnd_unicode(r, r.choice([1, 3, 8, 20, 60, 200])).encode("utf-8"))
     for _ in range(n_rand // 2):
@@ -1341,7 +1341,7 @@ def gen_texts(ctx, stats):
             add("tokens", "tokens", (K12.gen_token_text(r) if r.random() < 0.6 else K12.gen_balanced(r)).encode("utf-8", "replace"))
     except Exception:           # the C12 generators are a bonus stream
         pass
-    n_prog = 500 if quick else 15000
+    n_prog = 400 if quick else 15000
     for _ in range(n_prog):
         p = gen_program(r, r.choice([2, 3, 3]))[0]
         if r.random() < 0.85:
@@ -1349,7 +1349,7 @@ def gen_texts(ctx, stats):
         add("grammar", "grammar", p.encode("utf-8", "replace"))
     files = suite_files()
     stats["suite_files"] = len(files)
-    n_suite = 700 if quick else 20000
+    n_suite = 500 if quick else 20000
     srcs = [(f, open(f, "rb").read()) for f in files]
     for i in range(n_suite):
         f, b = srcs[r.randrange(len(srcs))] if i >= len(srcs) or quick else srcs[i]
@@ -1368,7 +1368,7 @@ def gen_texts(ctx, stats):
     picks += [kb for kb in base if kb[0].startswith("deep:") and (":100#" in kb[0] or ":1000#" in kb[0])]
     rest = [kb for kb in base if kb[0].startswith(("grammar", "suite:", "tokens"))]
     r.shuffle(rest)
-    picks += rest[: (600 if quick else 12000)]
+    picks += rest[: (300 if quick else 12000)]
     for k, b in picks:
         items.append(("mod:%s" % k, b))
         dist["module-mode"] = dist.get("module-mode", 0) + 1
